@@ -153,17 +153,37 @@ func New() *Explorer {
 	return e
 }
 
+// frame is one pending execution: the prefix is points[:i] of the parent execution followed by alternative alt at
+// point i. The parent's points are shared by all its successors (a materialised prefix per successor costs
+// O(points^2 x alternatives) memory for one execution: gigabytes on long executions with two deviations).
 type frame struct {
-	prefix []Forced
+	points []Point
+	i, alt int
+	root   bool
+}
+
+func (f frame) prefix() []Forced {
+	if f.root {
+		return nil
+	}
+	np := make([]Forced, f.i+1)
+	for k := 0; k < f.i; k++ {
+		p := &f.points[k]
+		np[k] = Forced{Choice: p.Choice, Kind: p.Kind, N: p.N, Label: p.Label, Check: true}
+	}
+	p := &f.points[f.i]
+	np[f.i] = Forced{Choice: f.alt, Kind: p.Kind, N: p.N, Label: p.Label, Check: true}
+	return np
 }
 
 // Run explores every execution of body within the bounds. after is called at
 // the end of each execution (oracle); returning false stops the exploration.
 func (e *Explorer) Run(body func(x *Exec), after func(x *Exec) bool) {
-	stack := []frame{{}}
+	stack := []frame{{root: true}}
 	for len(stack) > 0 {
-		f := stack[len(stack)-1]
+		fr := stack[len(stack)-1]
 		stack = stack[:len(stack)-1]
+		f := struct{ prefix []Forced }{fr.prefix()}
 		if e.MaxExec > 0 && e.Stats.Executions >= e.MaxExec {
 			e.Stats.CapHit = true
 			return
@@ -210,14 +230,7 @@ func (e *Explorer) Run(body func(x *Exec), after func(x *Exec) bool) {
 		}
 		for j := len(succs) - 1; j >= 0; j-- {
 			s := succs[j]
-			np := make([]Forced, s.i+1)
-			for k := 0; k < s.i; k++ {
-				p := &x.Points[k]
-				np[k] = Forced{Choice: p.Choice, Kind: p.Kind, N: p.N, Label: p.Label, Check: true}
-			}
-			p := &x.Points[s.i]
-			np[s.i] = Forced{Choice: s.alt, Kind: p.Kind, N: p.N, Label: p.Label, Check: true}
-			stack = append(stack, frame{np})
+			stack = append(stack, frame{points: x.Points, i: s.i, alt: s.alt})
 		}
 	}
 }
